@@ -23,7 +23,10 @@ RULE = (
     "bytes: records == normalised written records, canonical form of reader.writer_schema "
     "== canonical form of the schema (independent canonicaliser), codec and metadata "
     "reported, identical records for every sync_interval, and the stream monitors saw no "
-    "attribute other than read / write, flush, seekable. distinct = hash(schema shape, "
+    "attribute other than read / write, flush, seekable; every 4th case: two live readers "
+    "(file A partly consumed, then a file B whose evolved schema defines the same type names "
+    "with another layout is opened and read, then A is finished) each return their own file's "
+    "records. distinct = hash(schema shape, "
     "#records class, codec, interval class, stream kinds); non-trivial = >=1 record or "
     "a non-default configuration."
 )
@@ -38,7 +41,8 @@ CODECS = ["null", "deflate", "bzip2", "xz"]
 REACH = {
     "quick": {"files_checked": 1500, "zero_byte_record_files": 30, "empty_files": 20,
               "interval_exact": 30, "non_record_top": 100, "writeonly_outputs": 200,
-              "readonly_inputs": 200, "realfile_io": 100, "writer_class_flush_groupings": 300},
+              "readonly_inputs": 200, "realfile_io": 100, "writer_class_flush_groupings": 300,
+              "interleaved_reader_pairs": 150},
     "thorough": {"files_checked": 20000},
 }
 
@@ -212,7 +216,88 @@ def run_config(sh, fa, case, cfg, scratch, tag):
             sh.violation("metadata-lost", "metadata[%r]=%r, supplied %r" % (k, rd.metadata.get(k), v), info)
             return None
     sh.count("files_checked")
+    sh.last_file = (data, expected)
     return got
+
+
+def interleaved(sh, fa, rng, case):
+    """Two readers alive at once: A is partly consumed, then a file B whose schema defines the
+    same type names with another layout is opened and read, then the rest of A is consumed.
+    Each file must still read back as written from its own bytes."""
+    import random
+    from ..gen.evolve import Evolver
+
+    last = getattr(sh, "last_file", None)
+    if not last or len(last[1]) < 2:
+        return
+    data_a, exp_a = last
+    js = case["schema"]
+    js_b, steps = Evolver(random.Random(rng.getrandbits(40))).evolve(js)
+    if steps == ["identity_copy"]:
+        return
+    try:
+        node_b, _env = RS.build(js_b)
+    except Exception:
+        return
+    recs_b = []
+    for _ in range(6):
+        try:
+            d = DatumGen(rng, size_budget=40, big=0.0, omit_defaults=0.0).gen(node_b)
+            RC.from_datum(node_b, d)
+        except RecursionError:
+            return  # the evolved schema has no finite value
+        if RC.float_out_of_range(node_b, d) or RC.raw_under_logical(node_b, d):
+            continue
+        recs_b.append(d)
+    recs_b = recs_b[:3]
+    if not recs_b:
+        return
+    run_interleave(sh, fa, data_a, exp_a, js, js_b, node_b, recs_b, steps)
+
+
+def run_interleave(sh, fa, data_a, exp_a, js, js_b, node_b, recs_b, steps):
+    fo = io.BytesIO()
+    st, err = guard(fa.writer, fo, copy.deepcopy(js_b), recs_b)
+    if st == "exc":
+        sh.count("interleave_second_file_not_writable")
+        return
+    data_b = fo.getvalue()
+    try:
+        trees = RK.records(RK.parse(data_b), node_b)
+        exp_b = [RC.normalise(node_b, d, t) for d, t in zip(recs_b, trees)]
+    except Exception:
+        sh.count("interleave_second_file_not_parsed")
+        return
+    if len(exp_b) != len(recs_b):
+        return
+    info = {"schema": js, "schema_b": js_b, "records_b": recs_b, "steps": steps, "file_a": data_a, "expected_a": exp_a, "interleaved": True}
+
+    def run():
+        ra = iter(fa.reader(io.BytesIO(data_a)))
+        got_a = [next(ra)]
+        rb = iter(fa.reader(io.BytesIO(data_b)))
+        got_b = [next(rb)]
+        got_a.append(next(ra))
+        got_b.extend(rb)
+        got_a.extend(ra)
+        return got_a, got_b
+
+    def alone():
+        return list(fa.reader(io.BytesIO(data_b)))
+
+    st, res = guard(alone)
+    if st == "exc" or len(res) != len(exp_b) or not all(RC.same(a, b) for a, b in zip(res, exp_b)):
+        sh.count("interleave_second_file_not_readable_alone")  # C01/C04 proper judge single files
+        return
+    st, res = guard(run)
+    sh.count("interleaved_reader_pairs")
+    if st == "exc":
+        sh.violation("interleaved-readers-raised", "two live readers over files with the same type names (%s): %s" % (steps, exc_name(res)), info)
+        return
+    for nm, got, exp in (("first", res[0], exp_a), ("second", res[1], exp_b)):
+        if len(got) != len(exp) or not all(RC.same(a, b) for a, b in zip(got, exp)):
+            sh.violation("interleaved-readers-differ", "%s file read %s, holds %s" % (nm, printable(got, 200), printable(exp, 200)), info)
+            return
 
 
 def encoded_len(node, d):
@@ -277,6 +362,11 @@ def run_shard(spec):
 
         info = pickle.loads(base64.b64decode(spec["replay"]["pickle"]))
         node, env = RS.build(info["schema"])
+        if info.get("interleaved"):
+            sh.case(None)
+            run_interleave(sh, fa, info["file_a"], info["expected_a"], info["schema"], info["schema_b"],
+                           RS.build(info["schema_b"])[0], info["records_b"], info["steps"])
+            return sh.result()
         case = {"schema": info["schema"], "node": node, "records": info["records"]}
         sh.case(None)
         run_config(sh, fa, case, info["cfg"], scratch, "replay")
@@ -308,7 +398,10 @@ def run_shard(spec):
         recs = recs[:nrec]
         case["records"] = recs
         sh.feat(case["features"])
+        sh.last_file = None
         sh.run_case(one_case, sh, fa, rng, case, scratch, "c%d" % i)
+        if i % 4 == 0:
+            sh.run_case(interleaved, sh, fa, rng, case)
         if i % 60 == 1:
             sh.sample({"schema": case["schema"], "n_records": len(recs), "first": printable(recs[:1], 200)})
     return sh.result()
